@@ -395,12 +395,12 @@ func ruleDoUniqueIndex(c *Ctx, r *R) {
 				if len(parts) != 3 {
 					continue
 				}
-				if parts[0] == symOf(phi, provEnv{chain: d.calls}).String() && parts[1] == "<" && parts[2] == "param:"+nPar.Name() {
+				if parts[0] == symOf(phi, provEnv{chain: d.calls}).String() && parts[1] == "<" && parts[2] == "param:"+pname(nPar) {
 					bounded = true
 				}
 				if parts[1] == "==" && strings.HasPrefix(parts[2], "1:") {
 					// the tested value derives from the parallelism parameter
-					if parts[0] == "param:"+pPar.Name() || strings.Contains(parts[0], "param:"+pPar.Name()) || strings.HasPrefix(parts[0], "phi") {
+					if parts[0] == "param:"+pname(pPar) || strings.Contains(parts[0], "param:"+pname(pPar)) || strings.HasPrefix(parts[0], "phi") {
 						one = true
 					}
 				}
@@ -471,7 +471,7 @@ func ruleDoBounded(c *Ctx, r *R) {
 			// the default and the clamp: branches on `parallelism <= 0` and `parallelism > n` on the way to the spawn loop
 			// (in the API function, in the implementation, or in a helper that normalises the value)
 			clamp, dflt := false, false
-			pn, nn := "param:"+pPar.Name(), "param:"+nPar.Name()
+			pn, nn := "param:"+pname(pPar), "param:"+pname(nPar)
 			for _, d := range deepInstrs(im.api, 3) {
 				iff, ok := d.in.(*ssa.If)
 				if !ok {
